@@ -667,7 +667,7 @@ func lifecycleCheck(c lifeCfg) func(w *world, out *sched.Outcome) (string, strin
 // fdCheck is the C07 monitor.
 func fdCheck(w *world, out *sched.Outcome) (string, string) {
 	if mcsys.L != nil && len(mcsys.L.Violations) > 0 {
-		return mcsys.L.Violations[0], mcsys.L.Sigs[0]
+		return ledgerFirst("")
 	}
 	if w.runDone {
 		if open := mcsys.OpenFrameworkFds(); len(open) > 0 {
@@ -851,6 +851,15 @@ func TestMC_C07(t *testing.T) {
 	}
 	cfgs = append(cfgs, clientConfigs("C07")...)
 	cfgs = append(cfgs, fatalAcceptConfigs("C07")...)
+	// a start that fails half-way (C18's start-up faults) must not leave descriptors behind either
+	if all, _ := faultSchedConfigs(); true {
+		for _, c := range all {
+			if strings.HasPrefix(c.Name, "startup-fault/") {
+				c.Property = "C07"
+				cfgs = append(cfgs, c)
+			}
+		}
+	}
 	// failed engine start (resource exhaustion, failed registrations): nothing may leak or be closed twice
 	for _, loops := range []int{1, 2} {
 		loops := loops
